@@ -91,11 +91,21 @@ pub struct FaultRng {
     pub kind: FaultKind,
     pub requests: usize,
     pub fired: bool,
+    /// the rand_core error code reported by the failing request (values below 2^31 read as OS errnos)
+    pub code: u32,
 }
+
+/// Error codes a generator may report: rand_core custom / internal codes, and raw OS errnos including the
+/// "transient" ones (EINTR 4, EAGAIN 11 / 35) that retry loops like to swallow.
+pub const FAULT_CODES: [u32; 10] = [Error::CUSTOM_START + 7, Error::INTERNAL_START + 1, 1, 4, 5, 11, 35, 38, (1 << 31) - 1, u32::MAX];
 
 impl FaultRng {
     pub fn new(script: &[u8], fail_at: usize, kind: FaultKind) -> FaultRng {
-        FaultRng { inner: RecordingRng::new(script), fail_at, kind, requests: 0, fired: false }
+        FaultRng { inner: RecordingRng::new(script), fail_at, kind, requests: 0, fired: false, code: Error::CUSTOM_START + 7 }
+    }
+    pub fn with_code(mut self, code: u32) -> FaultRng {
+        self.code = code;
+        self
     }
 }
 
@@ -123,7 +133,7 @@ impl RngCore for FaultRng {
                     self.inner.try_fill_bytes(out)?;
                 }
             }
-            return Err(Error::from(NonZeroU32::new(Error::CUSTOM_START + 7).unwrap()));
+            return Err(Error::from(NonZeroU32::new(self.code).unwrap()));
         }
         self.inner.try_fill_bytes(out)
     }
